@@ -401,6 +401,8 @@ func (q *qworld) newNodeRuntime(n *simNode) error {
 		BatchItems: q.cfg.BatchItems, ExchangeTimeout: q.cfg.ExchangeTO, ReplicaHedgeDelay: q.cfg.Hedge,
 		TrailingFlushInterval: q.cfg.Trailing, RecoveryTimeout: 3 * q.cfg.ExchangeTO, LocalTimeout: q.cfg.ExchangeTO,
 		CloseTimeout: 2 * time.Second, MaxChannels: 64,
+		// small admission queues (the defaults allocate 8192-slot channels per pool per node)
+		QueueItems: 4 * q.cfg.BatchItems, TargetItems: 2 * q.cfg.BatchItems,
 	})
 	if err != nil {
 		return err
